@@ -1043,10 +1043,8 @@ fn parse_blocks(css: &str) -> Option<Vec<Block>> {
 }
 
 fn panic_site(p: &str) -> String {
-    let mut it = p.splitn(3, ':');
-    let f = it.next().unwrap_or("?");
-    let l = it.next().unwrap_or("?");
-    format!("{f}:{l}")
+    // file + normalised message (no line number): survives unrelated edits
+    vp::rs::panic_site(p)
 }
 
 fn same_modulo_order(a: &[Block], b: &[Block]) -> bool {
